@@ -537,10 +537,17 @@ pub fn c12_search(seed: u64, n: u64) -> i32 {
         for _ in 0..k {
             let rp = rps[rng.below(rps.len() as u64) as usize];
             let mode = rng.below(4);
+            // weight a / weight b: far apart, or one unit in the last place apart (a tolerance-based comparison is not equality)
+            let (wa, wb) = match rng.below(5) {
+                0 => (0.5f32, f32::from_bits(0.5f32.to_bits() + 1)),
+                1 => (1.0f32, f32::from_bits(1.0f32.to_bits() - 1)),
+                2 => (0.0f32, f32::from_bits(1)),
+                _ => (0.5f32, 0.25f32),
+            };
             for c in combos_fp(rp) {
                 let pick = match mode { 0 => 1, 1 => rng.below(3), 2 => 1 + rng.below(2) / 1 * (rng.below(8) == 0) as u64, _ => (rng.below(6) != 0) as u64 };
                 if pick == 0 { continue; }
-                let w = if pick == 1 { 0.5 } else { 0.25 };
+                let w = if pick == 1 { wa } else { wb };
                 if !entries.iter().any(|e| e.0 == c) { entries.push((c, w)); }
             }
         }
@@ -806,7 +813,80 @@ pub fn check_c17(entries: &Vec<(CardPair, f32)>, seed: u64) -> Result<String, St
         if back != a { return Err(format!("text {:?} parses to a different range", ta)); }
         if back.to_string() != ta { return Err(format!("parse-then-format changes the text {:?}", ta)); }
     }
+    check_c17_runs(entries, &ta)?;
     Ok(ta)
+}
+
+/// first-principles reading of one printed rank-pair token: (row kind 0 pockets / 1 suited / 2 offsuit, high card index,
+/// first and last rank index it spans); None for a single-combo token such as "AsKh"
+fn read_rp_token(body: &str) -> Result<Option<(usize, usize, usize, usize)>, String> {
+    let ch: Vec<char> = body.chars().collect();
+    let ri = |c: char| RANK_CH.iter().position(|x| *x == c);
+    let bad = || Err(format!("token {:?} is not in range notation", body));
+    let is_suit = |c: char| SUIT_CH.contains(&c);
+    if ch.len() == 4 && ri(ch[0]).is_some() && is_suit(ch[1]) && ri(ch[2]).is_some() && is_suit(ch[3]) { return Ok(None); }
+    let so = |c: char| if c == 's' { Some(1) } else if c == 'o' { Some(2) } else { None };
+    match ch.len() {
+        2 | 3 if ch.len() == 2 || ch[2] == '+' => match (ri(ch[0]), ri(ch[1])) {
+            (Some(a), Some(b)) if a == b => Ok(Some((0, 0, if ch.len() == 3 { 0 } else { a }, a))),
+            _ => bad(),
+        },
+        3 | 4 if ch.len() == 3 || ch[3] == '+' => match (ri(ch[0]), ri(ch[1]), so(ch[2])) {
+            (Some(a), Some(b), Some(k)) if a < b => Ok(Some((k, a, if ch.len() == 4 { a + 1 } else { b }, b))),
+            _ => bad(),
+        },
+        5 if ch[2] == '-' => match (ri(ch[0]), ri(ch[1]), ri(ch[3]), ri(ch[4])) {
+            (Some(a), Some(b), Some(c), Some(d)) if a == b && c == d && a < c => Ok(Some((0, 0, a, c))),
+            _ => bad(),
+        },
+        7 if ch[3] == '-' => match (ri(ch[0]), ri(ch[1]), so(ch[2]), ri(ch[4]), ri(ch[5]), so(ch[6])) {
+            (Some(a), Some(b), Some(k), Some(c), Some(d), Some(k2)) if a == c && k == k2 && a < b && b < d => Ok(Some((k, a, b, d))),
+            _ => bad(),
+        },
+        _ => bad(),
+    }
+}
+
+/// C17, second sentence, from first principles: the printed rank-pair tokens are exactly the maximal runs of adjacent
+/// complete rank pairs of one kind with equal weight, in the stated order, followed by the single combos
+fn check_c17_runs(entries: &Vec<(CardPair, f32)>, text: &str) -> Result<(), String> {
+    let weight_of = |p: &CardPair| entries.iter().rev().find(|e| e.0 == *p).map(|e| e.1);
+    let rp_of = |kind: usize, high: usize, idx: usize| match kind { 0 => RankPair::Pocket(RANKS[idx]), 1 => RankPair::Suited(RANKS[high], RANKS[idx]), _ => RankPair::Ofsuit(RANKS[high], RANKS[idx]) };
+    let complete = |kind: usize, high: usize, idx: usize| -> Option<f32> {
+        let cs = combos_fp(rp_of(kind, high, idx));
+        let first = weight_of(&cs[0])?;
+        for c in cs.iter() { if weight_of(c)? != first { return None; } }
+        Some(first)
+    };
+    if text.is_empty() { return if entries.is_empty() { Ok(()) } else { Err("non-empty range prints as the empty text".to_string()) }; }
+    let mut last_key: Option<(usize, usize, usize, usize)> = None;
+    let mut covered = std::collections::HashSet::new();
+    for tok in text.split(',') {
+        let (body, w) = match tok.find(':') { Some(i) => (&tok[..i], tok[i + 1..].parse::<f32>().map_err(|_| format!("weight of {:?} unreadable", tok))?), None => (tok, 1.0f32) };
+        let key = match read_rp_token(body)? {
+            None => (2, 0, 0, 0),
+            Some((kind, high, lo, hi)) => {
+                for idx in lo..=hi {
+                    match complete(kind, high, idx) {
+                        Some(x) if x == w => {}
+                        other => return Err(format!("token {:?} spans {} which is {:?} in the range (run written too long)", tok, rp_of(kind, high, idx), other)),
+                    }
+                    if !covered.insert((kind, high, idx)) { return Err(format!("{} is written twice", rp_of(kind, high, idx))); }
+                }
+                let row_start = if kind == 0 { 0 } else { high + 1 };
+                if lo > row_start && complete(kind, high, lo - 1) == Some(w) { return Err(format!("token {:?} could be merged with the rank pair above it", tok)); }
+                if hi < 12 && complete(kind, high, hi + 1) == Some(w) { return Err(format!("token {:?} could be merged with the rank pair below it", tok)); }
+                if kind == 0 { (0, 0, 0, lo) } else { (1, high, kind, lo) }
+            }
+        };
+        if let Some(lk) = last_key { if (key.0 != 2 && key <= lk) || key.0 < lk.0 { return Err(format!("token {:?} is out of order in {:?}", tok, text)); } }
+        last_key = Some(key);
+    }
+    for kind in 0..3 { for high in 0..13 { for idx in 0..13 {
+        if (kind == 0 && high != 0) || (kind != 0 && idx <= high) { continue; }
+        if complete(kind, high, idx).is_some() && !covered.contains(&(kind, high, idx)) { return Err(format!("complete rank pair {} is not written as a rank-pair token in {:?}", rp_of(kind, high, idx), text)); }
+    } } }
+    Ok(())
 }
 
 pub fn c17_search(seed: u64, n: u64) -> i32 {
@@ -820,7 +900,7 @@ pub fn c17_search(seed: u64, n: u64) -> i32 {
         for _ in 0..k {
             let start = rng.below(rps.len() as u64) as usize;
             let len = 1 + rng.below(4) as usize;
-            let w = [1.0f32, 0.5, 0.25][rng.below(3) as usize];
+            let w = [1.0f32, 0.5, 0.25, 0.0, f32::from_bits(0.5f32.to_bits() + 1)][rng.below(5) as usize];
             for rp in rps.iter().skip(start).take(len) {
                 let partial = rng.below(5) == 0;
                 for c in combos_fp(*rp) {
